@@ -431,7 +431,7 @@ AREAS["C10"] = {'area': 'c10',
  'also_corr': ['C11'],   # Decode / MergePoints are one model: arbitrary batches (C11's inputs) tie it to the code as well
  'id': 10,
  'coq': ['Base', 'Codec', 'Properties/C10.v', "Anchors/Generated.v", "Anchors/TieCodec.v"],
- 'rule': 'seeded generator over 10 flat Go struct types (two of them with function-local nested struct types of the same name) covering scalar / pointer / slice / array / string-keyed map / flat struct / '
+ 'rule': 'seeded generator over 11 flat Go struct types (two of them with function-local nested struct types of the same name, one with defined string / int32 / float64 element types) covering scalar / pointer / slice / array / string-keyed map / flat struct / '
          'pointer-to-struct fields (bool, int, int8..int64, uint..uint64, float32, float64, string; point and edgepoint tags) and a 3-level struct '
          'type with `child` slices: per scale unit 2400 round-trip values, 1200 before/after pairs and 400 trees; slice and map sizes skewed to '
          '0,1,2,3-10,999,1000 (1001 in the boundary stream), integers skewed to 0, +-1 and the width / 2^53-1 limits, floats from a pool of special '
